@@ -100,7 +100,7 @@ pub fn ligaturesubst<T: GlyphData>(opt_gdef_table: Option<&GDEFTable>, subtables
         !(r is Ok && r->Ok_0 is Some) ==> final(glyphs)@.len() == old(glyphs)@.len(),
 { unimplemented!() }
 
-/// apply_subst_context's contract proved in unit C02_ctx: (input_length, changes)
+/// contract of contextsubst / chaincontextsubst proved in unit C02_ctx: (input_length, changes)
 pub open spec fn ctx_result(old_len: int, new_len: int, i: int, r: Result<Option<(usize, isize)>, ParseError>) -> bool {
     &&& r is Ok && r->Ok_0 is Some ==> new_len == old_len + r->Ok_0->Some_0.1 && i + r->Ok_0->Some_0.0 <= new_len && r->Ok_0->Some_0.0 - r->Ok_0->Some_0.1 >= 1
     &&& r is Ok && r->Ok_0 is None ==> new_len == old_len
@@ -109,13 +109,13 @@ pub open spec fn ctx_result(old_len: int, new_len: int, i: int, r: Result<Option
 #[verifier::external_body]
 pub fn contextsubst<T: GlyphData>(recursion_limit: usize, gsub_cache: &LayoutCache<GSUB>, lookup_list: &LookupList<GSUB>, opt_gdef_table: Option<&GDEFTable>,
     subtables: &Vec<ContextLookup<GSUB>>, feature_tag: u32, match_type: MatchType, i: usize, glyphs: &mut Vec<RawGlyph<T>>) -> (r: Result<Option<(usize, isize)>, ParseError>)
-    requires i < old(glyphs)@.len()
+    requires i < old(glyphs)@.len(), old(glyphs)@.len() <= usize::MAX / 2
     ensures ctx_result(old(glyphs)@.len() as int, final(glyphs)@.len() as int, i as int, r)
 { unimplemented!() }
 #[verifier::external_body]
 pub fn chaincontextsubst<T: GlyphData>(recursion_limit: usize, gsub_cache: &LayoutCache<GSUB>, lookup_list: &LookupList<GSUB>, opt_gdef_table: Option<&GDEFTable>,
     subtables: &Vec<ChainContextLookup<GSUB>>, feature_tag: u32, match_type: MatchType, i: usize, glyphs: &mut Vec<RawGlyph<T>>) -> (r: Result<Option<(usize, isize)>, ParseError>)
-    requires i < old(glyphs)@.len()
+    requires i < old(glyphs)@.len(), old(glyphs)@.len() <= usize::MAX / 2
     ensures ctx_result(old(glyphs)@.len() as int, final(glyphs)@.len() as int, i as int, r)
 { unimplemented!() }
 
